@@ -11,7 +11,7 @@ META = {
             "Generated search cases through every public entry point are checked against a validity predicate (bound by the limit in force, pointer-membership, uniqueness, finite non-negative scores, non-increasing order); the default limit is calibrated, not hard-coded. Sampling, not proof: it shows absence of violations on the explored cases only.",
             "rapid generators; Go runtime; default limits are calibrated from the engine itself (a 150-entry all-matching database)"),
     "C02": ("self-differential (bitwise) over repetitions, reloads and separate processes",
-            "The same (database, query, options) is searched repeatedly, on independently loaded copies and in separate processes; ranked lists must be bit-identical. Map-order 'schedules' are explored by repetition on tie-heavy databases, not enumerated.",
+            "The same (database, query, options) is searched repeatedly, on independently loaded copies and in separate processes; ranked lists must be bit-identical. Map-order 'schedules' are explored by repetition on tie-heavy databases, not enumerated. Per-process state (tables built at initialisation) is explored by answering every language-stage word as first and last query word in six fresh processes per batch.",
             "Go's per-range map randomisation is the only source of schedule variety; cannot be seeded"),
     "C03": ("differential against an independent reference tokenizer + BM25F scorer; fresh-load differential for histories",
             "Every generated search (NLP off) is recomputed by a from-scratch reference scorer over the command texts (set equality both ways, scores within 1e-9 relative); after load/merge/replace/grow/in-place-edit histories (file-loaded and program-made entries) results must equal those of a fresh database with the same content. In a third of the cases the platform filter is on (canonical tags, first words classified by the harness) and eligibility is part of the expected set.",
@@ -50,7 +50,7 @@ META = {
             "Generated byte strings (all Unicode whitespace/control classes, invalid UTF-8, boundary lengths) are validated; acceptance must equal an independent acceptor, outputs must be clean and stable under re-validation; limits map into 1..100; the built binary must search and record exactly the validated query (generated argv with punctuation-heavy questions).",
             "the acceptor is derived from the property statement, not from the code"),
     "C15": ("fault enumeration over the (main, personal, backup) fault matrix x generated retry configurations with an attempt-observer hook",
-            "Every combination of file faults is loaded through LoadDatabaseWithFallback with generated retry settings; result must be a usable database without error, the real one when it can be, with exact attempt counts and monotone bounded delays observed through the hook.",
+            "Every combination of file faults is loaded through LoadDatabaseWithFallback with generated retry settings; result must be a usable database without error, the real one when it can be, with exact attempt counts and monotone bounded delays observed through the hook. Whole wait schedules (base and cap up to math.MaxInt64, odd factors, up to 400 attempts) are computed through an accessor hook and checked against [0, cap] and monotonicity without sleeping.",
             "unreadable files need a non-root child (uid 65534); delays are observed via the hook, not wall-clock"),
     "C16": ("rapid state machine vs a reference log + totality over generated history file bytes (rapid + native fuzz)",
             "Generated add/save/load (fresh and same object)/clear histories are compared with a reference log (bound, order, repeat-update, views); arbitrary file content followed by record+save must not panic and must leave the new query newest.",
